@@ -220,7 +220,10 @@ def dltyped(  # noqa: C901, PLR0915
             nonlocal dltype_hints
 
             dltype_hints = _maybe_get_type_hints(dltype_hints, func)
-            signature = _maybe_get_signature(signature, func)
+            if signature is None:
+                # only look the signature up again while it is unknown: passing a known signature through the
+                # cached helper hashes it, which fails for parameters with unhashable default values
+                signature = _maybe_get_signature(None, func)
             if signature is None or dltype_hints is None:
                 warnings.warn(
                     "Unable to determine signature of dltyped function, type checking will be skipped. (Inner classes with forward references are  not supported.)",
